@@ -505,12 +505,46 @@ def check_nested_map(ctx, i):
     ctx.case({"nestedmap": [len(r) for r in rows]}, len(rows) >= 2)
 
 
+def mapped_branch_renames(ctx):
+    """Directed: a mapping node around an if/else graph whose branches produce DIFFERENT outputs, one or both of them
+    renamed on the wrapper; the items alternate between the branches starting with either one, so the first successful
+    item does not produce every output a later item produces. Each output list has one entry per item: the item's
+    value, or None where the item took the other branch. Also with invalid limits the call is rejected or complete."""
+    rng = ctx.rng
+    for first in (0, 1):
+        for ren in ({"ob": "ob_ext"}, {"oa": "oa_ext"}, {"oa": "oa_ext", "ob": "ob_ext"}, {"oa": "ob", "ob": "oa"}):
+            inner = {"name": "inner", "nodes": [
+                {"k": "ifelse", "name": "pick", "params": [{"n": "x"}], "key": "x", "t": "ta", "f": "tb", "table": [True, False], "open": False},
+                {"k": "fn", "name": "ta", "fid": "inner/ta", "params": [{"n": "x"}], "outs": ["oa"]},
+                {"k": "fn", "name": "tb", "fid": "inner/tb", "params": [{"n": "x"}], "outs": ["ob"]},
+            ], "bind": {}, "selectors": ["x"]}
+            items = [first, 1 - first, first, 1 - first, 1 - first]
+            sub = {"k": "sub", "name": "inner", "prog": inner, "rename_out": [dict(ren)], "map": {"over": ["x"], "mode": "zip", "err": "raise"}}
+            outer = {"name": "outer", "nodes": [sub], "bind": {}}
+            fm = ref.forward_map(["oa", "ob"], [dict(ren)])
+            # table index 0 -> True -> ta (oa); rt.sel(int) % 2
+            exp = {fm["oa"]: [(("inner/ta", (("x", v),)) if v % 2 == 0 else None) for v in items], fm["ob"]: [(("inner/tb", (("x", v),)) if v % 2 == 1 else None) for v in items]}
+            case = {"form": "mapped if/else, wrapper outputs renamed", "rename": ren, "items": items, "spec": outer}
+            for runner in ("sync", "async"):
+                o = core.execute(core.with_async(outer, runner == "async", rng), {"x": list(items)}, runner, sched=rt.Sched(default="rand", rng=rng) if runner == "async" else None)
+                ctx.obs["map_calls"] += 1
+                ctx.obs["mapped_branch_rename_runs"] += 1
+                ctx.obs["items_compared"] += 2 * len(items)
+                if o.exc is not None or o.status != "completed":
+                    ctx.violation("C10:node-run-failed", f"{runner}: mapped if/else graph with renamed outputs {ren}: {o.status} {o.exc!r}", {**case, "runner": runner})
+                elif o.values != exp:
+                    ctx.violation("C10:node-column:entries", f"{runner}: mapped if/else graph, outputs renamed {ren}, items {items}: got {core.short(o.values, 400)}; one entry per item (None for the other branch) gives {core.short(exp, 400)}", {**case, "runner": runner})
+    ctx.case({"directed": "mapped-branch-renames"}, True)
+
+
 def run(ctx):
     n = 300 if ctx.tier == "quick" else 9000
     core.WARM_P = 0.0
     if ctx.replay:
         ctx.inconc("C10 replays are re-generated from the seed; re-run the tier with the recorded seed")
         return
+    if ctx.shard[0] == 0:
+        mapped_branch_renames(ctx)
     for i in range(n):
         r = i % 5
         if r in (0, 1):
